@@ -5,6 +5,7 @@
 (* Record (one base group formatted in several input orders):              *)
 (*  {n, tie:[class id per element], group:[group index per element],       *)
 (*   perms:[{inp:[ids], out:[ids], attach_ok:b, bounds_ok:b}]}             *)
+(*  optional texts:[id of the output text per arrangement of one list]    *)
 (*  ids are 1..n; `tie` gives equal numbers to elements that differ only   *)
 (*  in their alias (ranked equal); `group` numbers the run (between        *)
 (*  boundaries) an element belongs to.                                     *)
@@ -41,9 +42,14 @@ TieStable ==
         /\ Pos(P[k].inp, x) < Pos(P[k].inp, y))
      => Pos(P[k].out, x) < Pos(P[k].out, y)
 
+(* import lists (nested lists included) written in every arrangement: one text.  `texts`
+   numbers the distinct outputs of the arrangements of one base list *)
+OneText == ("texts" \in DOMAIN R) => \A k \in 1 .. Len(R.texts) : R.texts[k] = R.texts[1]
+
 ReportInv ==
-  LET F == {n \in {"SameElements", "NoCross", "OrderIsFunction", "TieStable"} :
+  LET F == {n \in {"SameElements", "NoCross", "OrderIsFunction", "TieStable", "OneText"} :
               ~(CASE n = "SameElements" -> SameElements [] n = "NoCross" -> NoCross
-                  [] n = "OrderIsFunction" -> OrderIsFunction [] n = "TieStable" -> TieStable)}
+                  [] n = "OrderIsFunction" -> OrderIsFunction [] n = "TieStable" -> TieStable
+                  [] n = "OneText" -> OneText)}
   IN F = {} \/ PrintT(ToJson([tag |-> "FAIL", l |-> l, fails |-> F]))
 =============================================================================
